@@ -45,6 +45,11 @@ import (
 //	                  has torn the relay down and returned)
 //	   fo = fast open, log = traffic logger present; sizes "." or a+b+c (chunk sizes)
 //	lbdial <fo> <log> <start> <len>    Outbound.TCP fails with a <len>-byte error text
+//	both take an optional last field h<H>t<K>: H = 0 no RequestHook, 1 a RequestHook whose
+//	Check declines every request, 2 one that intercepts every request and changes nothing;
+//	K (fast open only) = the outbound dial is held back while the client issues K Reads with
+//	a 25 ms deadline (they must fail without data), then the dial is released and the client
+//	reads on without deadline
 //
 // Observed: bytes accepted by the target, bytes read by the client, every LogTraffic call and
 // verdict in order, target Read/Write/Close calls, UntraceStream, Disconnect (+ close code),
@@ -100,6 +105,21 @@ type lbPlan struct {
 	vetoDir  byte
 	late     bool
 	dialMsg  []byte
+	hook     int // 0 none, 1 declines, 2 intercepts (no-op)
+	timeouts int // Reads that time out while the dial is held back (fast open)
+}
+
+// parseOpts reads the optional "h<H>t<K>" field.
+func (p *lbPlan) parseOpts(s string) bool {
+	var h, t int
+	if _, err := fmt.Sscanf(s, "h%dt%d", &h, &t); err != nil || h < 0 || h > 2 || t < 0 || t > 5 {
+		return false
+	}
+	p.hook, p.timeouts = h, t
+	if !p.fo {
+		p.timeouts = 0 // without fast open TCP() itself waits for the response
+	}
+	return true
 }
 
 const lbTargetAddr = "target.verif.test:80"
@@ -132,6 +152,8 @@ type lbWorld struct {
 	vetoed           bool
 	vetoPending      bool
 	vetoReturned     bool
+	dialRelease      bool
+	hookChecks       int
 	releaseVeto      bool
 	eofNow           bool
 	writerDone       bool
@@ -208,6 +230,10 @@ func (o *lbOutbound) TCP(reqAddr string) (net.Conn, error) {
 	w.dials = append(w.dials, reqAddr)
 	if reqAddr == lbProbeAddr {
 		return nil, errors.New("probe")
+	}
+	if w.plan.timeouts > 0 {
+		// the dial takes as long as the client needs for its timed-out Reads
+		w.waitLocked(func() bool { return w.dialRelease }, w.deadline)
 	}
 	if w.plan.class == "dial" {
 		return nil, errors.New(string(w.plan.dialMsg))
@@ -392,6 +418,20 @@ func (e *lbEvents) TCPError(addr net.Addr, id, reqAddr string, err error) {
 func (e *lbEvents) UDPRequest(addr net.Addr, id string, sessionID uint32, reqAddr string) {}
 func (e *lbEvents) UDPError(addr net.Addr, id string, sessionID uint32, err error)        {}
 
+// lbHook is a RequestHook that declines (mode 1) or intercepts without changing anything
+// (mode 2): no putback, same address.
+type lbHook struct {
+	w    *lbWorld
+	mode int
+}
+
+func (h *lbHook) Check(isUDP bool, reqAddr string) bool {
+	h.w.set(func() { h.w.hookChecks++ })
+	return h.mode == 2
+}
+func (h *lbHook) TCP(stream server.HyStream, reqAddr *string) ([]byte, error) { return nil, nil }
+func (h *lbHook) UDP(data []byte, reqAddr *string) error                      { return nil }
+
 type lbAuth struct{}
 
 func (lbAuth) Authenticate(addr net.Addr, auth string, tx uint64) (bool, string) { return true, "user" }
@@ -420,6 +460,9 @@ func lbStart(p lbPlan) (*lbEnv, error) {
 	}
 	if p.log {
 		cfg.TrafficLogger = &lbLogger{w: w}
+	}
+	if p.hook != 0 {
+		cfg.RequestHook = &lbHook{w: w, mode: p.hook}
 	}
 	srv, err := server.NewServer(cfg)
 	if err != nil {
@@ -519,10 +562,38 @@ func (relayLB) Gen(r *vh.RNG, n int, emit func(op string, tags ...string)) {
 	}
 	// the fixed part of the matrix first: dial errors at the boundary lengths, eager and
 	// fast open; refusals in both directions, immediate and late
-	for _, fo := range []bool{false, true} {
-		for _, l := range lbDialLens {
-			emitOne(fmt.Sprintf("lbdial %s %s %d %d", b01s(fo), b01s(r.Bool()), r.Intn(251), l), "dial", fmt.Sprintf("dial-%d", l))
+	opts := func(fo bool, dial bool) (string, []string) {
+		h := 0
+		switch k := r.Intn(10); {
+		case k < 3:
+			h = 1
+		case k < 5 && !dial:
+			h = 2
 		}
+		t := 0
+		if fo && r.Bool() {
+			t = r.Range(1, 2)
+		}
+		tags := []string{fmt.Sprintf("hook-%d", h)}
+		if t > 0 {
+			tags = append(tags, "read-timeouts")
+		}
+		return fmt.Sprintf("h%dt%d", h, t), tags
+	}
+	for _, fo := range []bool{false, true} {
+		for i, l := range lbDialLens {
+			o := fmt.Sprintf("h%dt%d", i%2, 0)
+			if fo {
+				o = fmt.Sprintf("h%dt%d", (i/2)%2, 1+i%2)
+			}
+			emitOne(fmt.Sprintf("lbdial %s %s %d %d %s", b01s(fo), b01s(r.Bool()), r.Intn(251), l, o), "dial", fmt.Sprintf("dial-%d", l), "opts-"+o)
+		}
+	}
+	// a declining / intercepting hook and timed-out first Reads on complete relays
+	for _, o := range []string{"0 h1t0", "1 h1t2", "0 h2t0", "1 h2t1", "1 h0t2"} {
+		up, down := genSizes(r, 1), genSizes(r, 1)
+		emitOne(fmt.Sprintf("lb tfin %s 1 %d %s %d %s %d - %s", o[:1], r.Intn(251), sizesStr(up), r.Intn(251), sizesStr(down), r.Intn(2), o[2:]),
+			"tfin", "opts-"+o[2:])
 	}
 	for _, dir := range []string{"T", "R"} {
 		for _, gate := range []string{"now", "late"} {
@@ -532,7 +603,7 @@ func (relayLB) Gen(r *vh.RNG, n int, emit func(op string, tags ...string)) {
 				if dir == "R" {
 					tot = sum(down)
 				}
-				emitOne(fmt.Sprintf("lb veto %s 1 %d %s %d %s %d %s%s", b01s(fo), r.Intn(251), sizesStr(up), r.Intn(251), sizesStr(down),
+				emitOne(fmt.Sprintf("lb veto %s 1 %d %s %d %s %d %s%s h0t0", b01s(fo), r.Intn(251), sizesStr(up), r.Intn(251), sizesStr(down),
 					r.Intn(tot), dir, gate), "veto", "veto-"+dir+"-"+gate)
 			}
 		}
@@ -544,7 +615,7 @@ func (relayLB) Gen(r *vh.RNG, n int, emit func(op string, tags ...string)) {
 		head := func(class string) string {
 			return fmt.Sprintf("lb %s %s %s %d %s %d %s", class, b01s(fo), b01s(lg), us, sizesStr(up), ds, sizesStr(down))
 		}
-		tags := []string{}
+		o, tags := opts(fo, false)
 		if fo {
 			tags = append(tags, "fastopen")
 		}
@@ -553,20 +624,20 @@ func (relayLB) Gen(r *vh.RNG, n int, emit func(op string, tags ...string)) {
 		}
 		switch k := r.Intn(100); {
 		case k < 22:
-			emitOne(head("tfin")+fmt.Sprintf(" %d -", r.Intn(2)), append(tags, "tfin")...)
+			emitOne(head("tfin")+fmt.Sprintf(" %d - %s", r.Intn(2), o), append(tags, "tfin")...)
 		case k < 40:
-			emitOne(head("cfin")+" 0 -", append(tags, "cfin")...)
+			emitOne(head("cfin")+" 0 - "+o, append(tags, "cfin")...)
 		case k < 52:
-			emitOne(head("cearly")+fmt.Sprintf(" %d -", r.Intn(len(up)+1)), append(tags, "cearly")...)
+			emitOne(head("cearly")+fmt.Sprintf(" %d - %s", r.Intn(len(up)+1), o), append(tags, "cearly")...)
 		case k < 64:
-			emitOne(head("tearly")+fmt.Sprintf(" %d -", r.Intn(len(down)+1)), append(tags, "tearly")...)
+			emitOne(head("tearly")+fmt.Sprintf(" %d - %s", r.Intn(len(down)+1), o), append(tags, "tearly")...)
 		case k < 72:
-			emitOne(head("trerr")+fmt.Sprintf(" %d -", r.Intn(len(down)+1)), append(tags, "trerr")...)
+			emitOne(head("trerr")+fmt.Sprintf(" %d - %s", r.Intn(len(down)+1), o), append(tags, "trerr")...)
 		case k < 82:
 			if sum(up) == 0 {
 				continue
 			}
-			emitOne(head("twerr")+fmt.Sprintf(" %d -", r.Intn(sum(up))), append(tags, "twerr")...)
+			emitOne(head("twerr")+fmt.Sprintf(" %d - %s", r.Intn(sum(up)), o), append(tags, "twerr")...)
 		case k < 94:
 			dir := "T"
 			tot := sum(up)
@@ -580,14 +651,15 @@ func (relayLB) Gen(r *vh.RNG, n int, emit func(op string, tags ...string)) {
 			if r.Bool() {
 				gate = "late"
 			}
-			emitOne(fmt.Sprintf("lb veto %s 1 %d %s %d %s %d %s%s", b01s(fo), us, sizesStr(up), ds, sizesStr(down), r.Intn(tot), dir, gate),
-				"veto", "veto-"+dir+"-"+gate)
+			emitOne(fmt.Sprintf("lb veto %s 1 %d %s %d %s %d %s%s %s", b01s(fo), us, sizesStr(up), ds, sizesStr(down), r.Intn(tot), dir, gate, o),
+				append(tags, "veto", "veto-"+dir+"-"+gate)...)
 		default:
 			l := r.Pick(lbDialLens)
 			if r.Bool() {
 				l = r.Range(0, 6000)
 			}
-			emitOne(fmt.Sprintf("lbdial %s %s %d %d", b01s(fo), b01s(lg), r.Intn(251), l), "dial")
+			od, tg := opts(fo, true)
+			emitOne(fmt.Sprintf("lbdial %s %s %d %d %s", b01s(fo), b01s(lg), r.Intn(251), l, od), append(tg, "dial")...)
 		}
 	}
 }
@@ -600,6 +672,7 @@ type lbNoConn struct{ net.Conn }
 func (lbNoConn) Read([]byte) (int, error)  { return 0, net.ErrClosed }
 func (lbNoConn) Write([]byte) (int, error) { return 0, net.ErrClosed }
 func (lbNoConn) Close() error              { return nil }
+func (lbNoConn) SetReadDeadline(time.Time) error { return nil }
 
 func chunksOf(start int, sizes []int) [][]byte {
 	var out [][]byte
@@ -615,8 +688,12 @@ func (relayLB) Run(op string) vh.Result {
 	f := strings.Fields(op)
 	switch {
 	case len(f) == 5 && f[0] == "lbdial":
+		return runLbDial(append(f, "h0t0"))
+	case len(f) == 6 && f[0] == "lbdial":
 		return runLbDial(f)
 	case len(f) == 10 && f[0] == "lb":
+		return runLbRelay(append(f, "h0t0"))
+	case len(f) == 11 && f[0] == "lb":
 		return runLbRelay(f)
 	}
 	return vh.Result{Out: "bad-op"}
@@ -661,10 +738,40 @@ func (e *lbEnv) alive() bool {
 	select {
 	case err := <-done:
 		cl, msg := clientErrClass(err)
+		if e.w.plan.hook == 2 {
+			// an intercepted request is accepted before the dial; its failure only ends the stream
+			return !strings.HasPrefix(cl, "closed") && cl != "nil"
+		}
 		return cl == "dialerr" && string(msg) == "probe"
 	case <-time.After(5 * time.Second):
 		return false
 	}
+}
+
+// timedOutReads issues the plan's Reads with a short deadline while the dial is held back;
+// each must fail without handing out a byte.  Whatever they do hand out is returned.
+func (e *lbEnv) timedOutReads(conn net.Conn, fail func(string, ...any)) []byte {
+	var got []byte
+	w := e.w
+	if w.plan.timeouts == 0 {
+		return nil
+	}
+	buf := make([]byte, 65536)
+	for i := 0; i < w.plan.timeouts; i++ {
+		conn.SetReadDeadline(time.Now().Add(25 * time.Millisecond))
+		n, err := conn.Read(buf)
+		got = append(got, buf[:n]...)
+		if n > 0 {
+			fail("a Read issued before the server had dialled returned %d bytes", n)
+		} else if err == nil {
+			fail("a Read issued before the server had dialled returned (0, nil)")
+		} else if cl, _ := clientErrClass(err); cl != "other" {
+			fail("a Read issued before the server had dialled failed with %s (%v), not with a timeout", cl, err)
+		}
+	}
+	conn.SetReadDeadline(time.Time{})
+	w.set(func() { w.dialRelease = true })
+	return got
 }
 
 func runLbDial(f []string) vh.Result {
@@ -672,7 +779,11 @@ func runLbDial(f []string) vh.Result {
 	start, _ := strconv.Atoi(f[3])
 	ln, _ := strconv.Atoi(f[4])
 	msg := pat(start, ln)
-	env, err := lbStart(lbPlan{class: "dial", fo: fo, log: lg, dialMsg: msg})
+	plan := lbPlan{class: "dial", fo: fo, log: lg, dialMsg: msg}
+	if !plan.parseOpts(f[5]) || plan.hook == 2 {
+		return vh.Result{Out: "bad-op"}
+	}
+	env, err := lbStart(plan)
 	if err != nil {
 		return vh.Result{Out: "setup-failed", Oracle: []string{"loopback setup failed: " + err.Error()}}
 	}
@@ -688,6 +799,9 @@ func runLbDial(f []string) vh.Result {
 		}
 		// what the application writes before it learns of the failure must go nowhere
 		conn.Write([]byte("early data"))
+		if early := env.timedOutReads(conn, func(format string, a ...any) { orc = append(orc, fmt.Sprintf(format, a...)) }); len(early) > 0 {
+			orc = append(orc, "the failed dial was preceded by data handed to the application")
+		}
 		buf := make([]byte, 64)
 		done := make(chan error, 1)
 		go func() { _, e := conn.Read(buf); done <- e }()
@@ -721,7 +835,7 @@ func runLbDial(f []string) vh.Result {
 	if !env.alive() {
 		orc = append(orc, "the connection does not serve requests any more after a failed dial")
 	}
-	return vh.Result{Out: out, ModelOp: fmt.Sprintf("dial %s %d:%d", f[1], start, ln), NonTrivial: true, Oracle: orc}
+	return vh.Result{Out: out, ModelOp: fmt.Sprintf("dial %s %d %d %d:%d", f[1], plan.hook, plan.timeouts, start, ln), NonTrivial: true, Oracle: orc}
 }
 
 func logsStr(evs []lbEv, dir byte) string {
@@ -754,6 +868,9 @@ func runLbRelay(f []string) vh.Result {
 		p.vetoDir = f[9][0]
 		p.late = f[9][1:] == "late"
 	}
+	if !p.parseOpts(f[10]) {
+		return vh.Result{Out: "bad-op"}
+	}
 	env, err := lbStart(p)
 	if err != nil {
 		return vh.Result{Out: "setup-failed", Oracle: []string{"loopback setup failed: " + err.Error()}}
@@ -784,6 +901,10 @@ func runLbRelay(f []string) vh.Result {
 		}
 		w.set(func() { w.writerDone = true })
 	}()
+	// Reads that time out while the server is still dialling, then the reader proper
+	if early := env.timedOutReads(conn, fail); len(early) > 0 {
+		w.set(func() { w.rDown = append(w.rDown, early...) })
+	}
 	go func() {
 		buf := make([]byte, 65536)
 		for {
